@@ -95,6 +95,16 @@ func colourOf(v ssa.Value, memo map[ssa.Value]colour, depth int) colour {
 				}
 			}
 		} else if callee := x.Call.StaticCallee(); callee != nil {
+			// a function of the markup package: what it returns
+			if ssaFuncPkgPath(callee) == modPath+"/markup" && callee.Blocks != nil && callee.Signature.Results().Len() == 1 && isIntType(callee.Signature.Results().At(0).Type()) {
+				for _, cb := range callee.Blocks {
+					for _, ci := range cb.Instrs {
+						if r, ok := ci.(*ssa.Return); ok && len(r.Results) == 1 {
+							c = joinColour(c, colourOf(r.Results[0], memo, depth+1))
+						}
+					}
+				}
+			}
 			switch callee.String() {
 			case "unicode/utf8.RuneCountInString", "unicode/utf8.RuneCount":
 				c = runesC
@@ -109,6 +119,9 @@ func colourOf(v ssa.Value, memo map[ssa.Value]colour, depth int) colour {
 		if x.Op == token.MUL {
 			if fld := fieldOfAddr(x.X); fld != nil && isRuneField(fld) {
 				c = runesC
+			} else if fld != nil && isIntType(fld.Type()) && pkgPathOfVar(fld) == modPath+"/markup" {
+				// an integer field of the package: it counts whatever is stored in it anywhere in the package
+				c = fieldColour(fld, memo, depth)
 			} else if ia, ok := x.X.(*ssa.IndexAddr); ok {
 				c = colourOf(ia.X, memo, depth+1)
 			} else if a, ok := x.X.(*ssa.Alloc); ok {
@@ -630,8 +643,13 @@ func c13Position(c *Ctx) {
 		if call, ok := q.(*ast.CallExpr); ok {
 			if sel, ok := unparen(call.Fun).(*ast.SelectorExpr); ok && (sel.Sel.Name == "WriteRune" || sel.Sel.Name == "WriteString") {
 				if id := identOf(sel.X); id != nil {
-					if tv, ok := info.Types[sel.X]; ok && strings.HasSuffix(typeStr(tv.Type), "strings.Builder") {
-						builder = info.Uses[id]
+					// strings.Builder, or a type that wraps one (it writes runes and strings and renders a String)
+					if tv, ok := info.Types[sel.X]; ok {
+						if strings.HasSuffix(typeStr(tv.Type), "strings.Builder") {
+							builder = info.Uses[id]
+						} else if ms := types.NewMethodSet(types.NewPointer(tv.Type)); ms.Lookup(mp.Types, "String") != nil || ms.Lookup(nil, "String") != nil {
+							builder = info.Uses[id]
+						}
 					}
 				}
 			}
@@ -1100,4 +1118,30 @@ func c13Decimal(c *Ctx) {
 	if n == 0 {
 		c.undecided("C13.R8", "no construction of a decimal markup value (Value{FloatValue: …}) was found")
 	}
+}
+
+var fieldColourBusy = map[*types.Var]bool{}
+
+// fieldColour: the join of the units of everything the markup package stores into an integer field (a counter that is
+// bumped by len(text) in one place counts bytes, whatever else adds to it).
+func fieldColour(fld *types.Var, memo map[ssa.Value]colour, depth int) colour {
+	if fieldColourBusy[fld] || wGlobal == nil {
+		return neutral
+	}
+	fieldColourBusy[fld] = true
+	defer delete(fieldColourBusy, fld)
+	var c colour
+	for _, f := range wGlobal.ModuleSSAFuncs() {
+		if ssaFuncPkgPath(f) != modPath+"/markup" {
+			continue
+		}
+		for _, b := range f.Blocks {
+			for _, in := range b.Instrs {
+				if st, ok := in.(*ssa.Store); ok && fieldOfAddr(st.Addr) == fld {
+					c = joinColour(c, colourOf(st.Val, memo, depth+1))
+				}
+			}
+		}
+	}
+	return c
 }
